@@ -257,6 +257,16 @@ class Prop(common.PropertyCheck):
                 out['problems'].append('to_mef(channels=%s) changed the RFI sample it was given (events or range limits): gating that sample afterwards is no longer gating before the conversion' % (ch2,))
             gated_first = FlowCal.transform.to_mef(FlowCal.gate.high_low(rfi), ch2, scs, sc_ch)
             limits_check(rfi_keep, mef, ccols, 'to_mef')
+            # a sample from which a gate removed every event: its limits are converted like those of any other sample
+            try:
+                e_rfi = FlowCal.transform.to_rfi(d[:0], ch1, **kw)
+                e_mef = FlowCal.transform.to_mef(rfi_keep[:0], ch2, scs, sc_ch)
+                for nm, a, b in (('to_rfi', e_rfi, rfi_keep), ('to_mef', e_mef, mef)):
+                    if [tuple(v) if v is not None else None for v in a.range()] != [tuple(v) if v is not None else None for v in b.range()]:
+                        out['problems'].append('%s on the sample without events: range limits %s differ from those of the same conversion of the sample with events %s' % (
+                            nm, [tuple(v) for v in a.range()][:3], [tuple(v) for v in b.range()][:3]))
+            except Exception as e:
+                out['problems'].append('conversion of the sample without events raised %s: %s' % (type(e).__name__, str(e)[:60]))
             m2 = FlowCal.gate.high_low(mef, full_output=True).mask
             g2 = FlowCal.gate.high_low(mef, gl, full_output=True).mask
             if not np.array_equal(g1, g2):
